@@ -1208,7 +1208,9 @@ struct SysHarness
     }
     size_t const ctxs = quill::detail::ThreadContextManager::instance()._thread_contexts.size();
 
-    if (ctxs != want) fail("contexts-not-reclaimed", std::to_string(ctxs) + " thread contexts retained after the drain, " + std::to_string(want) + " live thread(s) have logged");
+    // (a stopped backend reclaims nothing any more: a thread that exits around or after the stop keeps its context until the
+    // next start)
+    if (ctxs != want && g_cfg.runloop.empty()) fail("contexts-not-reclaimed", std::to_string(ctxs) + " thread contexts retained after the drain, " + std::to_string(want) + " live thread(s) have logged");
     size_t reported = 0;
     for (auto const& n : notes)
     {
